@@ -220,6 +220,20 @@ def observe(ctx, spec, reqs, keep):
         ctx.violate(f"to_fname() = {fn!r}: {why}", case, key="fname-shape"); return None
     if fn != oracle_fname(c, h):
         ctx.disagree(f"to_fname() = {fn!r} but the documented format gives {oracle_fname(c, h)!r}", case)
+    # ---- a RELOADED configuration belongs to whoever loaded it: editing it in place must not leak into configurations loaded later
+    if ctx.evaluations % 3 == 0:
+        try:
+            first = MazeDatasetConfig.load(json.loads(text))
+            first.maze_ctor_kwargs["verif_probe_flag"] = False
+            first.endpoint_kwargs["deadend_start"] = not first.endpoint_kwargs.get("deadend_start", False)
+            first.applied_filters.append(dict(name="collect_generation_meta", args=(), kwargs={}))
+            again = MazeDatasetConfig.load(json.loads(text))
+            why = same_cfg(c, again)
+            if why or again.stable_hash_cfg() != c.stable_hash_cfg():
+                ctx.violate(f"after a configuration loaded from the same content was edited in place by its owner, loading that content again no longer gives the original: "
+                            f"{why or 'hash differs'} for {spec}", dict(case, route="load-after-edit-of-earlier-load"), key="rt-differs"); return None
+        except Exception as e:
+            ctx.violate(f"loading a configuration a second time raised {_exc(e)}: {str(e)[:120]} for {spec}", dict(case, route="load-after-edit-of-earlier-load"), key="rt-raises"); return None
     # ---- identity follows the CONTENT of the object as it is now: ask for hash / file name, change the object in place the way the
     #      library itself does (filters append to applied_filters; owners edit kwargs), ask again
     import copy as _copy
